@@ -248,6 +248,14 @@ def generate(rng, tier, index):
                                  "std_keytypes": not app},
                            {"full": rng.choice([0.5, 0.8, 1.0])})
     xml = G.render_schema(ir)
+    if rng.random() < 0.04 and "</default>" in xml:
+        # a <default> element without content (the empty string as a default:
+        # fine for a string, unconvertible for most other datatypes -- the
+        # load that falls back on it is refused like any other bad default)
+        import re as _re
+        spots = [m_ for m_ in _re.finditer(r">[^<>]*</default>", xml)]
+        m_ = rng.choice(spots)
+        xml = xml[:m_.start()] + "></default>" + xml[m_.end():]
     uni = layout.cut(rng, lines, ncuts=rng.choice([0, 1, 1, 2]),
                      decoys=False)
     top = uni["top"]
